@@ -1096,6 +1096,20 @@ func (e *Env) trCall(x *ast.CallExpr) TV {
 			e.fail(x, "tag: not a slice")
 		}
 		return TV{T: app("select", app("select", vc.hget(e.heap, "Tags", tagsSort), app("sid", v.T)), app("idx", v.T, i.T)), S: stInt}
+	case "oldmapskept":
+		// oldmapskept(map[K]V): every Go map of that type that existed in the old state has its old contents
+		mt, ok := arg(0).(*ast.MapType)
+		if !ok {
+			e.fail(x, "oldmapskept(map[K]V)")
+		}
+		kt, vt := e.resolveGoType(mt.Key), e.resolveGoType(mt.Value)
+		ks, vs := kt.Sort, vt.Sort
+		md := vc.hget(e.heap, mapDomArr(ks, vs), mapDomSort(ks))
+		mv := vc.hget(e.heap, mapValArr(ks, vs), mapValSort(ks, vs))
+		omd := vc.hget(e.old, mapDomArr(ks, vs), mapDomSort(ks))
+		omv := vc.hget(e.old, mapValArr(ks, vs), mapValSort(ks, vs))
+		otop := vc.hget(e.old, "top", "Int")
+		return TV{T: fmt.Sprintf("(forall ((mx Int)) (! (=> (and (< 0 mx) (<= mx %s)) (and (= (select %s mx) (select %s mx)) (= (select %s mx) (select %s mx)))) :pattern ((select %s mx)) :pattern ((select %s mx))))", otop, md, omd, mv, omv, md, mv), S: stBool}
 	case "card":
 		// card(set): cardinality of a logical set (Array K Bool), e.g. card(mapdom(m)) == len(m), card(_visited)
 		sv := e.tr(arg(0))
